@@ -128,7 +128,15 @@ func (p *Machine) Run(instructions []byte, localSubrs, globalSubrs [][]byte, han
 	p.ArgStack.Top = 0
 	p.callStack.top = 0
 
-	for len(p.instructions) > 0 {
+	for len(p.instructions) > 0 || p.callStack.top > 0 {
+		if len(p.instructions) == 0 {
+			// end of a subroutine without 'return' operator (which does not exist in CFF2) :
+			// resume the caller
+			if err := p.Return(); err != nil {
+				return err
+			}
+			continue
+		}
 		// Push a numeric operand on the stack, if applicable.
 		if hasResult, err := p.parseNumber(); hasResult {
 			if err != nil {
